@@ -230,10 +230,13 @@ def _shard_entry(args):
 
 
 def find_module(prop):
+    import importlib
     pdir = os.path.join(HERE, 'props')
     for f in sorted(os.listdir(pdir)):
         if f.lower().startswith(prop.lower() + '_') and f.endswith('.py'):
-            return f[:-3]
+            m = importlib.import_module('props.' + f[:-3])
+            if getattr(m, 'ID', None) == prop.upper() and hasattr(m, 'run_shard'):
+                return f[:-3]
     raise SystemExit('no module for property ' + prop)
 
 
